@@ -138,12 +138,12 @@ def consume(ctx, res, cells):
         ctx.outcome(k, v)
     for s in obs['samples']:
         ctx.sample(s)
-    if n_calls < 20 * len(cells):
-        raise HarnessError(f'C03 exploration collapsed: {n_calls} calls for {len(cells)} cells')
     for f in obs['failures']:
         fp = f'{f["cell"]}|{f["client"]}|{f["form"]}|{f["kind"]}'
         ctx.violation(fp, f'{f["cell"]} {f["client"]} form={f["form"]} val={f["val"]} reply={f["reply"]}: '
                           f'{f["kind"]}: {f["detail"]}', dict(cells=[f['cell']]))
+    if n_calls < 20 * len(cells) and not ctx.violations:
+        raise HarnessError(f'C03 exploration collapsed: {n_calls} calls for {len(cells)} cells')
 
 
 def replay(ctx, state):
